@@ -18,7 +18,8 @@ VALID_SNIPPETS = [
     'async def f():\n    await g()\n    async with a as b, c:\n        pass\n    async for i in j:\n        pass\n    else:\n        pass\n',
     'def f():\n    return (x async for x in y)\n', 'def f():\n    return (await x for x in y)\n',
     'async def f():\n    yield 1\n', 'async def f():\n    x = yield\n    await x\n',
-    'a, *b = c\n', '*a, = b\n', '[*a, b] = c\n', 'for a, *b in c: pass\n', 'a, b = *c, d\n', 'print(*a, *b, **c, **d)\n',
+    ', '.join('a%d' % i for i in range(130)) + ', *rest = values\n', '(' + ', '.join('a%d' % i for i in range(250)) + ', *rest) = values\n',
+    '[' + ', '.join('a%d' % i for i in range(200)) + ', *rest, z] = values\n', 'a, *b = c\n', '*a, = b\n', '[*a, b] = c\n', 'for a, *b in c: pass\n', 'a, b = *c, d\n', 'print(*a, *b, **c, **d)\n',
     'f(*a, b, *c, d=1, **e)\n', 'f(a, *b, c=1, *d, **e)\n', 'f(x for x in y)\n', 'f(a, (x for x in y))\n', 'f(**a, b=1)\n',
     'f(a := 1)\n', 'f(a := 1, b)\n', 'print(y := f(x), y**2)\n', 'g(n := 1, n := 2)\n', 'f(a := 1, *b, c=2, **d)\n', 'f((a := 1), b=(c := 2))\n',
     '[(i := 1) for [a, b] in x]\n', '[(y := f(k)) for d[k] in pairs]\n', '[(n := len(rest)) for first, *rest in rows]\n', '[(i := 1) for (a, b) in x]\n',
